@@ -211,6 +211,7 @@ type Worker struct {
 	nextTable int
 	nvar      int
 	inHeavy   bool
+	vfs       *vfs
 	noSummaries bool
 	encoded   []value
 	heavyCache map[tkey]*Term
@@ -760,6 +761,7 @@ func (w *Worker) resetPath(it workItem) {
 	w.depth = 0
 	w.nondets = nil
 	w.observes = nil
+	w.vfs = nil
 	w.noSummaries = false
 	w.encoded = nil
 	w.usedSolver = false
